@@ -600,7 +600,20 @@ def standard_run(ctx, prop, profile):
                                     ["call", nj, pre, "unordered", n3, None, [], 2.0], ["call", nj, 2, "unordered", 3, None, [], None]],
                           "max_events": 160, "stall_after": 0, "stall_call": 3, "p_close": 0.0, "p_call2": 0.0, "bsizes": [1],
                           "managed": k % 2 == 1, "p_blocked_pull": 0.05, "cb_after_start": True, "policy": "pull_first"})
+    if profile == "c09":
+        # deterministic witness of known finding F26 (a fixed schedule, replayed on every run): a completion callback runs
+        # its dispatch section while the caller is still inside _start, and the caller then drains the look-ahead queue it
+        # refilled: more items taken than the pre_dispatch bound allows
+        wpath = os.path.join(common.ROOT, "corpus", "c09_f26_witness.json")
+        if os.path.exists(wpath):
+            extra.append(json.loads(open(wpath).read()))
     res = correspondence(ctx, profile, n, extra)
+    if profile == "c09":
+        hit = any(c.get("id") == "f26_witness" and len(o) == 3 and str(o[2]).startswith("known:c09")
+                  for c, r, o in res["oracle_failures"])
+        if not hit:
+            ctx.note("the fixed witness schedule of known finding F26 (corpus/c09_f26_witness.json) did not exceed the bound in "
+                     "this run: the finding may be stale")
     mine = [(c, r, o) for c, r, o in res["oracle_failures"] if o[0] in (prop, "ALL")]
     others = [(c, r, o) for c, r, o in res["oracle_failures"] if o[0] not in (prop, "ALL")]
     seen = set()
